@@ -33,7 +33,7 @@ func judgeC08(c *fw.Ctx, sc *SnapCase) {
 		c.Rec.Count("skipped:grid-not-round-at-deepest-requested-level")
 		return
 	}
-	c.Rec.Count("set:" + sc.TMS.String())
+	countSet(c.Rec, sc)
 	c.Rec.Count(fmt.Sprintf("requested_ids:%d", len(sc.IDs)))
 	if o.Panic != nil {
 		c.Rec.Abort(fmt.Sprintf("snap.SnapPolygon panicked (%s at %s); judged by C06", o.PanicText, o.PanicSite), cj)
@@ -93,7 +93,7 @@ func judgeC08(c *fw.Ctx, sc *SnapCase) {
 }
 
 func init() {
-	pr := &Profile{Sets: c08Sets, Kinds: allKinds, MinIDs: 1, Huge: true}
+	pr := &Profile{Sets: c08Sets, Kinds: allKinds, MinIDs: 1, Huge: true, Zoo: true, TileWidth: true}
 	fw.Register(&fw.Prop{
 		ID: "C08", Cases: tierN(150000, 2000000),
 		Run: func(c *fw.Ctx) {
